@@ -111,6 +111,14 @@ pub fn handle(w: &[&str]) -> String {
                 format!("ok {}", to_hex(&out))
             })
         }
+        // `TryFrom<usize> for VarInt` (added by bC18: nothing exercised it)
+        ["varint", "tfu", n] => {
+            let Ok(x) = n.parse::<usize>() else { return "bad-op".into() };
+            guarded(|| match <VarInt as std::convert::TryFrom<usize>>::try_from(x) {
+                Err(_) => "refused".into(),
+                Ok(v) => format!("ok {}", v.into_inner()),
+            })
+        }
         ["varint", "esz", b] => {
             let Ok(x) = b.parse::<u8>() else { return "bad-op".into() };
             guarded(|| format!("{}", VarInt::encoded_size(x)))
